@@ -45,6 +45,7 @@ type Contract struct {
 	PkgShort       string
 	SafeOnly       bool
 	ReadsModel     bool
+	Stable         bool
 	Entry          bool // inputs are adversarial modulo requires: a replayed panic is a defect of the system
 }
 
@@ -94,7 +95,7 @@ type TypeInv struct {
 	Clause   *Clause
 }
 
-var clauseKeywords = map[string]bool{"reads-model": true, "names": true, "iteration": true, "requires": true, "ensures": true, "invariant": true, "decreases": true, "property": true,
+var clauseKeywords = map[string]bool{"stable": true, "reads-model": true, "names": true, "iteration": true, "requires": true, "ensures": true, "invariant": true, "decreases": true, "property": true,
 	"pure": true, "assigns": true, "trusted": true, "noinline": true, "inline": true, "func": true, "sweep": true, "immutable": true, "spec": true,
 	"axiom": true, "flagset": true, "safeonly": true, "immutable-family": true, "method-pre": true, "entry": true, "type-invariant": true, "elems-nonnil": true, "callback-parametric": true, "json-hidden": true, "json-visible": true}
 
@@ -365,6 +366,10 @@ func (w *World) parseContractFile(cs *ContractSet, file string) error {
 			cur.SafeOnly = true
 		case "entry":
 			cur.Entry = true
+		case "stable":
+			// the result never changes while a function under verification runs (assumption, listed in evidence):
+			// used for observers of resolved type nodes, which no pass mutates after type resolution
+			cur.Stable = true
 		case "reads-model":
 			// the result depends on the arguments and on model (package dsl) objects only
 			cur.ReadsModel = true
@@ -457,7 +462,11 @@ func (w *World) parseContractFile(cs *ContractSet, file string) error {
 			if err != nil {
 				return fmt.Errorf("%s:%d: %v", file, rl.line, err)
 			}
-			cs.SpecFuncs[sf.Name] = sf
+			if pkgShort != "" {
+				cs.SpecFuncs[pkgShort+"."+sf.Name] = sf // spec functions of a package contract file are package-scoped
+			} else {
+				cs.SpecFuncs[sf.Name] = sf
+			}
 		}
 	}
 	return nil
